@@ -355,11 +355,19 @@ def route_removal(state: VRPState, rng: Random, n_routes: int = 1) -> VRPState:
     n = min(n_routes, len(non_empty))
     to_remove_vehicles = rng.sample(non_empty, n)
 
+    removed: set[int] = set()
     for v in to_remove_vehicles:
-        state.unassigned.update(state.routes[v])
+        removed.update(state.routes[v])
         state.routes[v] = []
         state.arrival_times[v] = []
 
+    # a multi-vehicle customer may also sit on a route that stays: take it off there too
+    for v, route in enumerate(state.routes):
+        if any(c in removed for c in route):
+            state.routes[v] = [c for c in route if c not in removed]
+            state.arrival_times[v] = state.compute_arrival_times(v)
+
+    state.unassigned.update(removed)
     return state
 
 
